@@ -92,6 +92,13 @@ claim("C04", "other",
       "The tokenizer regex is stubbed by its token list; floats (/, div, ^, round, floor, ceil, trunc, decimals) are outside (CrossHair models floats as reals); the binding / trimming / #if / #ifeq / #switch half of the property is NOT covered by this revision (the wikitext->node-tree parser is regex driven).",
       "SMT-backed symbolic differential execution (CrossHair/z3) against a reference evaluator", "§4 C04")
 
+claim("C13", "other",
+      "Bounded symbolic execution of the typed-object <-> JSON-value mapping (MetabookObject.__init__/_json, myjson.object_hook, MbEncoder.default) on collections with symbolic shape (0..3 items: "
+      "articles, chapters with nested articles, unknown extra attributes), symbolic titles (<= 3 chars), revisions and optional fields: round trip, fixed point, per-instance default lists, and "
+      "value-level injectivity for pairs differing in exactly one title / revision / order / item / revision presence. Both cubes exhaust.",
+      "The JSON text layer (simplejson C codec), key order / whitespace invariance, SHA-256 and make_collection_id's repr concatenation are outside (not executable symbolically); the text codec is used in the concrete replay only.",
+      "SMT-backed symbolic execution (CrossHair/z3) of the object layer with the text codec modelled as identity on JSON values", "§4 C13")
+
 NA["C02"] = "structure law over the C++ scanner + 20 regex-driven passes: symbolic document shapes degenerate to enumerating concrete documents, no solver-decided bound of interest (DESIGN §5)"
 NA["C07"] = "losslessness is a law about document shapes x pass interactions: word identity, not word content, matters, so nothing in it is solver-relevant; making the shape symbolic degenerates into enumerating concrete documents (measured: the full 58-pass sequence under the tracer costs 0.7-4 s per path and no symbolic value reaches a branch), which is not this technique (DESIGN §4 C07)"
 NA["C08"] = "reportlab / odfpy / pdftk do the essential work (C code, floats, external processes); every input realizes immediately, nothing for a solver to decide (DESIGN §5)"
